@@ -717,6 +717,9 @@ class Program:
             if key not in self._shared_factory:
                 self._shared_factory[key] = factory(cache=MemoryCache)
             factory = self._shared_factory[key]
+        if n.get("wraps"):
+            # the decorator applied to an EXPRESSION instead of a function: dataset(WithOptions(X, P0), options=P, ...)
+            fn = self.ref(n["wraps"])
         ds = factory(fn, **kw)
         for alias, impl in n.get("overloads", []):
             self.register(ds, alias, impl, cache_kind=ck)
